@@ -40,6 +40,13 @@ def check(eng, res):
     for q, ensemble in (("system.System.generator", True), ("system.System.generate", False)):
         n += _pick(eng, res, eng.prog.func(q), ensemble)
     res.floor("R-PICK-FRACTION", n, 2)
+    # the declared share the pick reads is the number that was written: the linked setters store their argument as given (shared with C12)
+    from . import c12
+
+    sub = type(res)(res.prop)
+    c12.mass_algebra(eng, sub)
+    res.obligations += [o for o in sub.obligations if o.role in ("argument-stored-verbatim", "param-is-quantity")]
+    res.doc("R-MASS-ALGEBRA", "the mixture setters store the caller's value itself (the share used for the pick is the declared one; shared with C12)")
     res.assumptions += ["components are generated independently per pick (R-MEMBER, C13)"]
     res.not_decided += ["convergence of mass shares (statistical)", "that a repaired, mass-aware law converges to the declared composition"]
 
